@@ -230,12 +230,12 @@ class Engine:
         n = 2 if family == "sl2z" else rng.choice([1, 2, 2, 3, 3, 4, 5])
         cfg = {
             "engine": NAME,
-            "steps": rng.choice([6, 10, 16, 25, 40]),
+            "steps": rng.choice([6, 10, 16, 25, 40, 60] if tier == "thorough" else [6, 10, 16, 25, 40]),
             "family": family,
             "n": n,
             "ngens": rng.randint(1, 4),
             "multi": rng.random() < 0.2 and family != "sl2z",
-            "max_handles": rng.randint(2, 5),
+            "max_handles": rng.randint(2, 7 if tier == "thorough" else 5),
             "callers": rng.randint(2, 4),
             "maxdim": 30,
             "mixed_dtypes": rng.random() < 0.3,
